@@ -118,6 +118,7 @@ func (bd *BlockDownloader) Run(ctx context.Context, interrupt <-chan interface{}
 		logger.Int("block_height", height))
 
 	// Wait for download to start
+	simYield("BlockDownloader.Run before start select")
 	select {
 	case <-interrupt:
 		bd.cancelAndWaitForComplete(ctx)
@@ -149,6 +150,7 @@ func (bd *BlockDownloader) Run(ctx context.Context, interrupt <-chan interface{}
 	}
 
 	// Wait for completion
+	simYield("BlockDownloader.Run before complete select")
 	select {
 	case <-interrupt:
 		bd.cancelAndWaitForComplete(ctx)
@@ -208,6 +210,7 @@ func (bd *BlockDownloader) cancelAndWaitForComplete(ctx context.Context) {
 }
 
 func (bd *BlockDownloader) Stop(ctx context.Context) {
+	simYield("BlockDownloader.Stop entry")
 	hash := bd.Hash()
 
 	isStarted := true
@@ -250,6 +253,7 @@ func (bd *BlockDownloader) Stop(ctx context.Context) {
 }
 
 func (bd *BlockDownloader) Cancel(ctx context.Context) {
+	simYield("BlockDownloader.Cancel entry")
 	hash := bd.Hash()
 	ctx = logger.ContextWithLogFields(ctx,
 		logger.Stringer("connection", bd.RequesterID()),
@@ -306,6 +310,7 @@ func (bd *BlockDownloader) HandleBlock(ctx context.Context, header *wire.BlockHe
 	txCount uint64, txChannel <-chan *wire.MsgTx) error {
 
 	hash := *header.BlockHash()
+	simYield("BlockDownloader.HandleBlock entry")
 	bd.Started <- hash
 
 	ctx = logger.ContextWithLogFields(ctx,
@@ -335,6 +340,7 @@ func (bd *BlockDownloader) HandleBlock(ctx context.Context, header *wire.BlockHe
 		logger.Warn(ctx, "Failed to handle block : %s", err)
 	}
 
+	simYield("BlockDownloader.HandleBlock before complete")
 	bd.Complete <- err
 	return err // return error to node
 }
